@@ -337,13 +337,17 @@ func (rn *runner) runAny(i int) {
 	uc := anyCase{Index: i, Config: cfg.Kind, Roots: cfg.Roots, Route: route, Err: es.class}
 
 	// ---- redirect material
-	uc.Mode = pick(r, "valid-signature", 36, "signature-sweep", 18, "just-stale", 16, "unsigned", 30)
-	if uc.Mode == "signature-sweep" && r.Intn(2) == 0 || uc.Mode == "just-stale" {
+	uc.Mode = pick(r, "valid-signature", 34, "signature-sweep", 16, "just-stale", 14, "extreme-ts", 10, "unsigned", 26)
+	force := ""
+	if uc.Mode == "just-stale" || uc.Mode == "extreme-ts" {
+		force = uc.Mode
+	}
+	if uc.Mode == "signature-sweep" && r.Intn(2) == 0 || force != "" {
 		ti = goodTemplates[r.Intn(len(goodTemplates))]
 	}
-	ss := rn.genSignedMode(r, base, uc.Mode == "valid-signature" || uc.Mode == "unsigned", uc.Mode == "just-stale", ti)
-	for uc.Mode == "just-stale" && ss.dup != "single" {
-		ss = rn.genSignedMode(r, base, false, true, ti)
+	ss := rn.genSignedMode(r, base, uc.Mode == "valid-signature" || uc.Mode == "unsigned", force, ti)
+	for force != "" && ss.dup != "single" {
+		ss = rn.genSignedMode(r, base, false, force, ti)
 	}
 	if uc.Mode == "unsigned" {
 		var ps []kv
@@ -363,7 +367,7 @@ func (rn *runner) runAny(i int) {
 	if r.Intn(100) < 12 {
 		uc.Shape = naturalShape(r, "")
 	}
-	if uc.Mode == "just-stale" && r.Intn(100) < 85 {
+	if (uc.Mode == "just-stale" || uc.Mode == "extreme-ts") && r.Intn(100) < 85 {
 		// mostly where the route reads its signature from, so that only the age stands in the way
 		switch route {
 		case "sign_in", "sign_out":
@@ -693,7 +697,7 @@ func (rn *runner) runAny(i int) {
 	}
 
 	// stale by a small margin and otherwise acceptable: a fresh timestamp would have been honoured
-	uc.armedStale = uc.Mode == "just-stale" && form == "canonical" && (uc.HostVar == "own" || uc.HostVar == "own+x-forwarded-host") &&
+	uc.armedStale = (uc.Mode == "just-stale" || uc.Mode == "extreme-ts") && form == "canonical" && (uc.HostVar == "own" || uc.HostVar == "own+x-forwarded-host") &&
 		(uc.Shape2 == "" || !strings.HasSuffix(uc.Shape2, "(first)")) &&
 		((route == "sign_in" && uc.Shape == "direct" && cid == "right") || (route == "sign_out" && uc.Shape == "direct") || (route == "start" && uc.Shape == "nested"))
 	site := route
@@ -976,7 +980,17 @@ func (rn *runner) judgeAnyResponse(i int, site, route, form string, rs *sut.Resp
 	kc := uc
 	kc.Legit = legitNames[anySt] + " (" + anyWhy + ")"
 	kc.Location = trunc(loc, 600)
-	if uc.armedStale && anyWhy == "stale-ts" {
+	if uc.armedStale && uc.Mode == "extreme-ts" && (anyWhy == "stale-ts" || anyWhy == "malformed-ts") {
+		rep.Count("any_extreme_ts_judged_"+route+"_"+uc.Method, 1)
+		rep.Count("extreme_ts_variant_"+uc.TSVar, 1)
+		if isNearMinInt64(uc.TSVar) {
+			rep.Count("extreme_ts_near_min_int64_judged", 1)
+		}
+		if len(acted) == 0 && rs.Status >= 400 {
+			rep.Count("extreme_ts_refused", 1)
+		}
+	}
+	if uc.armedStale && uc.Mode == "just-stale" && anyWhy == "stale-ts" {
 		rep.Count("any_just_stale_judged_"+route+"_"+uc.Method, 1)
 		if len(acted) == 0 && rs.Status >= 400 {
 			rep.Count("just_stale_refused", 1)
